@@ -46,6 +46,27 @@ STRENGTHENED = {
     "C19-5": "C19 missed it: paths storrent declares nothing for (/debug/pprof/..., /debug/vars, /metrics, ...) probed under foreign Hosts",
     "C19-6": "C19 missed it: hostile names that end like file names (.mp3, .ts, .mkv, .m3u8 after the line break)",
     "C20-4": "C20 missed it: duplicate names in a FUSE directory listing",
+    # third round (k = 7..9)
+    "C01-9": "C01 and C17 missed it: family 'a piece is being hashed at deletion' (hasher held at its yield point; Kill may not return while memory is held or data readable)",
+    "C02-7": "C02 missed it (C10 caught it): honest seeds answer after 30-80 virtual ms and honour cancels",
+    "C02-9": "C02 missed it: 2-3 FUSE reads blocked on one open file, interrupted one after the other",
+    "C03-7": "hung the check: Del watchdog (two minutes, then reported and busy marks cleared by force)",
+    "C03-9": "C03 missed it: family 'a torrent in the middle of its deletion is in the table during the global pass'",
+    "C05-7": "C05 caught it once, then not at all (C12 always): size votes from a succession of short-lived connections go up and then down, then blocks beyond the smaller size",
+    "C05-9": "C05 missed it: magnets added by the hash of an authentic, unusable (nameless) dictionary",
+    "C08-8": "C08 missed it: the reference server sends its answer and the first payload bytes in one write",
+    "C08-9": "C08 missed it: 'aftermath' family (three healthy pairs with slow readers move data concurrently after a failed write elsewhere)",
+    "C09-7": "C09 missed it: answer kind 'misaligned' (begin shifted by 1-3 bytes, sometimes followed by a hang-up); answers are matched to requests by 16 KiB slot",
+    "C09-8": "caught once by luck: a new bitfield and a have behind it while the torrent loop is held",
+    "C10-7": "caught once by luck: completions are reported twice (duplicate last block)",
+    "C17-7": "C17 missed it: family 'second Torrent object for a listed hash' (refused duplicate, and calls through tor.Get while a torrent is being added)",
+    "C17-9": "spun for ever inside the bubble: per-case wall-clock watchdog in the children (inconclusive) + real-time family 'deletion with a full mailbox'",
+    "C18-7": "C18 missed it: the same hash added again while the process-wide defaults say everything on",
+    "C18-8": "C18 missed it: other, unproxied torrents live next to the proxied one when the incoming handshake names it",
+    "C18-9": "C18 missed it: a slow, failing tracker first in the tier (the switch-off falls into its announce)",
+    "C19-8": "C19 missed it: taints with percent-escaped metacharacters; a page showing their decoded form counts",
+    "C19-9": "C19 missed it: names that are empty once commas and line breaks are removed",
+    "C20-9": "C20 missed it: torrents created by hash with a display name, then completed with their info dictionary",
 }
 rows = []
 for d in sorted(glob.glob(os.path.join(ROOT, "seeded", "C[0-9][0-9]-*"))):
